@@ -129,6 +129,8 @@ pub struct HistRun {
     /// histograms built around an already populated strategy: (strategy, more values added afterwards?, what the
     /// closed histogram reports, what the strategy itself drains)
     pub prefilled: Vec<(&'static str, bool, Vec<(f64, u64)>, Vec<(f64, u64)>)>,
+    /// the shared strategy drained while recorders were running: (occurrences over all drains, occurrences recorded)
+    pub concurrent_drain: Option<(u128, u128)>,
     pub done: bool,
 }
 
@@ -310,6 +312,31 @@ fn hist_main(plan: &Value, slot: Arc<Mutex<Option<HistRun>>>) {
         }
         prefilled!("SortAndMerge", SortAndMerge::<32>::default(), SortAndMerge<32>);
         prefilled!("ExponentialAggregationStrategy", ExponentialAggregationStrategy::default(), ExponentialAggregationStrategy);
+        // the shared strategy drained *while* other threads record into it (what a periodic reporter does): every
+        // observation is in exactly one drain
+        {
+            let shared = Arc::new(AtomicExponentialAggregationStrategy::default());
+            let parts: Vec<Vec<In>> = vec![ins[..cut].to_vec(), ins[cut..].to_vec()];
+            let mut hs = vec![];
+            for (k, part) in parts.into_iter().enumerate() {
+                let sh = shared.clone();
+                hs.push(detsim::thread::spawn_named(&format!("srec{}", k + 1), move || {
+                    for i in part {
+                        sh.record_many(i.x, i.n);
+                    }
+                }));
+            }
+            let mut drained: u128 = 0;
+            for _ in 0..3 {
+                detsim::yield_point();
+                drained += shared.drain().iter().map(|o| match o { Observation::Repeated { occurrences, .. } => *occurrences as u128, _ => 1 }).sum::<u128>();
+            }
+            for h in hs {
+                let _ = h.join();
+            }
+            drained += shared.drain().iter().map(|o| match o { Observation::Repeated { occurrences, .. } => *occurrences as u128, _ => 1 }).sum::<u128>();
+            run.concurrent_drain = Some((drained, ins.iter().map(|i| i.n as u128).sum()));
+        }
         reuse!("SortAndMerge", SortAndMerge::<32>::default(), record_many);
         reuse!("ExponentialAggregationStrategy", ExponentialAggregationStrategy::default(), record_many);
         reuse!("AtomicExponentialAggregationStrategy", AtomicExponentialAggregationStrategy::default(), record_many);
@@ -483,6 +510,11 @@ pub fn check_c11(plan: &Value, run: &HistRun) -> Option<Violation> {
     }
     if run.merged_exp.obs != run.seq_exp.obs {
         return Some(Violation::new("merge_changes_exponential", format!("merging two closed exponential histograms differs from one histogram of all values: {:?} vs {:?}", &run.merged_exp.obs[..run.merged_exp.obs.len().min(6)], &run.seq_exp.obs[..run.seq_exp.obs.len().min(6)])));
+    }
+    if let Some((got, want)) = run.concurrent_drain {
+        if got != want {
+            return Some(Violation::new("count_not_conserved", format!("atomic exponential strategy drained while other threads were recording: the drains together count {got} observations, {want} were recorded")));
+        }
     }
     for (name, added, got, want) in &run.prefilled {
         // (bitwise: NaN-free lists of (total, occurrences))
